@@ -35,6 +35,7 @@ from ..schema import (
     ObjectType,
     ScalarType,
     UnionType,
+    is_input_type,
 )
 from ..schema.introspection import INTROPSPECTION_TYPES
 from ..schema.scalars import default_scalar
@@ -325,6 +326,13 @@ class ASTTypeBuilder:
     def _default_value(
         self, node: _ast.InputValueDefinition, type_: GraphQLType
     ) -> Any:
+        if not is_input_type(lazy(type_)):
+            raise SDLError(
+                'Invalid default value for "%s": "%s" is not an input type'
+                % (node.name.value, type_),
+                [node],
+            )
+
         try:
             return value_from_ast(
                 cast(_ast.Value, node.default_value), lazy(type_)
